@@ -1897,22 +1897,26 @@ Definition dval (a : cell) (E : Z) : Z := fst a * 2 ^ (snd a - E).
 Lemma norm_pos_value p e :
   e <= snd (norm_pos p e) /\ Zpos p = Zpos (fst (norm_pos p e)) * 2 ^ (snd (norm_pos p e) - e).
 Proof.
-  revert e. induction p as [p IH|p IH|]; intros e; simpl;
-    try (split; [lia|]; rewrite Z.sub_diag, Z.pow_0_r; lia).
-  destruct (IH (e + 1)) as [I1 I2]. split; [lia|].
-  replace (snd (norm_pos p (e + 1)) - e) with (1 + (snd (norm_pos p (e + 1)) - (e + 1))) by lia.
-  rewrite Z.pow_add_r by lia. rewrite Z.pow_1_r.
-  change (Z.pos p~0) with (2 * Z.pos p). rewrite I2 at 1. ring.
+  revert e. induction p as [p IH|p IH|]; intros e.
+  - cbn [norm_pos fst snd]. split; [lia|]. rewrite Z.sub_diag, Z.pow_0_r. lia.
+  - cbn [norm_pos]. destruct (IH (e + 1)) as [I1 I2]. split; [lia|].
+    replace (snd (norm_pos p (e + 1)) - e) with (1 + (snd (norm_pos p (e + 1)) - (e + 1))) by lia.
+    rewrite Z.pow_add_r by lia. rewrite Z.pow_1_r.
+    rewrite Pos2Z.inj_xO. set (q := Z.pos (fst (norm_pos p (e + 1)))) in *.
+    set (x := 2 ^ (snd (norm_pos p (e + 1)) - (e + 1))) in *. rewrite I2. ring.
+  - cbn [norm_pos fst snd]. split; [lia|]. rewrite Z.sub_diag, Z.pow_0_r. lia.
 Qed.
 
 Lemma dnorm_value c E : E <= snd c -> dval (dnorm c) E = dval c E.
 Proof.
-  destruct c as [m e]. unfold dval, dnorm. simpl. intros H. destruct m as [|p|p].
-  - simpl. reflexivity.
-  - destruct (norm_pos_value p e) as [I1 I2]. destruct (norm_pos p e) as [q e']. simpl in *.
+  destruct c as [m e]. intros H. cbn [snd] in H. destruct m as [|p|p].
+  - reflexivity.
+  - unfold dnorm. cbn [fst snd]. destruct (norm_pos_value p e) as [I1 I2].
+    destruct (norm_pos p e) as [q e']. cbn [fst snd] in *. unfold dval. cbn [fst snd].
     rewrite I2. replace (e' - E) with ((e' - e) + (e - E)) by lia. rewrite Z.pow_add_r by lia. ring.
-  - destruct (norm_pos_value p e) as [I1 I2]. destruct (norm_pos p e) as [q e']. simpl in *.
-    change (Z.neg p) with (- Z.pos p). change (Z.neg q) with (- Z.pos q).
+  - unfold dnorm. cbn [fst snd]. destruct (norm_pos_value p e) as [I1 I2].
+    destruct (norm_pos p e) as [q e']. cbn [fst snd] in *. unfold dval. cbn [fst snd].
+    rewrite <- !Pos2Z.opp_pos.
     rewrite I2. replace (e' - E) with ((e' - e) + (e - E)) by lia. rewrite Z.pow_add_r by lia. ring.
 Qed.
 
@@ -1960,19 +1964,21 @@ Proof.
   apply dleb_antisym; try assumption; apply (dleb_iff _ _ E); try assumption; unfold dval in H; lia.
 Qed.
 
+Lemma norm_pos_idem p e q e' : norm_pos p e = (q, e') -> norm_pos q e' = (q, e').
+Proof.
+  revert e. induction p as [p IH|p IH|]; intros e N; simpl in N; try (injection N as <- <-; reflexivity).
+  apply (IH (e + 1)). exact N.
+Qed.
+
 Lemma dnorm_canonical c : canonical (dnorm c).
 Proof.
-  unfold canonical. destruct c as [m e]. unfold dnorm at 2. simpl. destruct m as [|p|p]; [reflexivity| |].
-  - destruct (norm_pos p e) as [q e'] eqn:N. unfold dnorm. simpl.
-    assert (Q : norm_pos q e' = (q, e')).
-    { revert e N. induction p as [p IH|p IH|]; intros e N; simpl in N; try (injection N as <- <-; reflexivity).
-      apply (IH (e + 1)). exact N. }
-    rewrite Q. reflexivity.
-  - destruct (norm_pos p e) as [q e'] eqn:N. unfold dnorm. simpl.
-    assert (Q : norm_pos q e' = (q, e')).
-    { revert e N. induction p as [p IH|p IH|]; intros e N; simpl in N; try (injection N as <- <-; reflexivity).
-      apply (IH (e + 1)). exact N. }
-    rewrite Q. reflexivity.
+  unfold canonical. destruct c as [m e]. destruct m as [|p|p]; [reflexivity| |].
+  - destruct (norm_pos p e) as [q e'] eqn:N.
+    assert (D : dnorm (Z.pos p, e) = (Z.pos q, e')) by (unfold dnorm; cbn [fst snd]; rewrite N; reflexivity).
+    rewrite D. unfold dnorm. cbn [fst snd]. rewrite (norm_pos_idem _ _ _ _ N). reflexivity.
+  - destruct (norm_pos p e) as [q e'] eqn:N.
+    assert (D : dnorm (Z.neg p, e) = (Z.neg q, e')) by (unfold dnorm; cbn [fst snd]; rewrite N; reflexivity).
+    rewrite D. unfold dnorm. cbn [fst snd]. rewrite (norm_pos_idem _ _ _ _ N). reflexivity.
 Qed.
 
 Lemma arithmetic_exact :
@@ -1984,16 +1990,6 @@ Lemma arithmetic_exact :
   (forall a b E, canonical a -> canonical b -> E <= snd a -> E <= snd b -> (ceqb a b = true <-> dval a E = dval b E)) /\
   (forall a b, canonical (dadd a b) /\ canonical (dmul a b)).
 Proof.
-  repeat split; intros.
-  - apply dadd_value; assumption.
-  - apply dsub_value; assumption.
-  - apply dmul_value; assumption.
-  - apply dleb_value; assumption.
-  - apply dleb_value; assumption.
-  - apply dltb_value; assumption.
-  - apply dltb_value; assumption.
-  - apply ceqb_value; assumption.
-  - apply ceqb_value; assumption.
-  - apply dnorm_canonical.
-  - apply dnorm_canonical.
+  exact (conj dadd_value (conj dsub_value (conj dmul_value (conj dleb_value (conj dltb_value
+        (conj ceqb_value (fun a b => conj (dnorm_canonical _) (dnorm_canonical _)))))))).
 Qed.
